@@ -19,6 +19,11 @@ import GbVerif.Proofs.X86SimAdc
 import GbVerif.Proofs.X86SimFlagOps
 import GbVerif.Proofs.X86SimMem
 import GbVerif.Proofs.X86SimMemAlu
+import GbVerif.Proofs.X86SimRotT
+import GbVerif.Proofs.X86SimJump
+import GbVerif.Proofs.X86SimMemAbs
+import GbVerif.Proofs.X86SimRmw
+import GbVerif.Proofs.X86SimBitHl
 /-!
 C01 — translated blocks have the same architectural effect as the interpreter.
 (Structural facts first; the x86 model and per-template simulation lemmas are added by `Proofs/X86*.lean`.)
@@ -469,6 +474,71 @@ theorem simulation_mem_alu_partial (b1 b2 : Nat) :
     SimulatesMem 0x86 b1 b2 ∧ SimulatesMem 0x96 b1 b2 ∧ SimulatesMem 0xa6 b1 b2 ∧ SimulatesMem 0xae b1 b2 ∧ SimulatesMem 0xb6 b1 b2 ∧
     SimulatesMem 0xbe b1 b2 ∧ SimulatesMemF 0x8e b1 b2 ∧ SimulatesMemF 0x9e b1 b2 :=
   ⟨sim_86 b1 b2, sim_96 b1 b2, sim_a6 b1 b2, sim_ae b1 b2, sim_b6 b1 b2, sim_be b1 b2, sim_8e b1 b2, sim_9e b1 b2⟩
+
+/-- **simulation_shift_partial**: SLA r / SRA r / SRL r and SWAP r for the seven registers (28 encodings of the CB page) —
+the register write (`shl|sar|shr r8,1`, `rol r8,4`), then Z and C (Z only for SWAP) from the host's flags with F's low
+nibble kept — for all states -/
+theorem simulation_shift_partial : ∀ (r : Reg8) (b2 : Nat),
+    (∀ k : Sh3, SimulatesCb (opcodeSh k r) b2) ∧ SimulatesCb (opcodeSwap r) b2 :=
+  fun r b2 => ⟨fun k => sim_sh k r b2, sim_swap r b2⟩
+
+/-- SLA B = CB 20, SRA A = CB 2F, SRL L = CB 3D, SWAP E = CB 33 -/
+example : opcodeSh .sla .B = 0x20 ∧ opcodeSh .sra .A = 0x2f ∧ opcodeSh .srl .L = 0x3d ∧ opcodeSwap .E = 0x33 := by decide
+
+
+/-- **simulation_rot_partial**: the rotates. RLCA / RRCA for all states; RLC r / RRC r for the seven registers for all states
+(the template computes Z through `or r8,r8 ; sete r14b ; ror r14b,1 ; or al,r14b` and leaves 0 or 0x80 in the status byte,
+class normal: `SimulatesCbS`); RLA / RRA and RL r / RR r for all states whose F has a clear low nibble (the guest's C is
+moved into the host's CF by `and al,0x10 ; add al,0xf0`, which destroys F; the interpreter keeps F's low nibble) —
+32 encodings -/
+theorem simulation_rot_partial :
+    (∀ (k : Rc2) b1 b2, Simulates (opcodeRcA k) b1 b2) ∧ (∀ (k : Rc2) r b2, SimulatesCbS (opcodeRc k r) b2) ∧
+    (∀ (k : Rt2) b1 b2, SimulatesF (opcodeRtA k) b1 b2) ∧ (∀ (k : Rt2) r b2, SimulatesCbF (opcodeRt k r) b2) :=
+  ⟨fun k b1 b2 => sim_rca k b1 b2, fun k r b2 => sim_rc k r b2, fun k b1 b2 => sim_rta k b1 b2, fun k r b2 => sim_rt k r b2⟩
+
+/-- RLCA = 07, RRCA = 0F, RLA = 17, RRA = 1F; RLC B = CB 00, RRC A = CB 0F, RL C = CB 11, RR A = CB 1F -/
+example : opcodeRcA .rlc = 0x07 ∧ opcodeRcA .rrc = 0x0f ∧ opcodeRtA .rl = 0x17 ∧ opcodeRtA .rr = 0x1f ∧
+    opcodeRc .rlc .B = 0x00 ∧ opcodeRc .rrc .A = 0x0f ∧ opcodeRt .rl .C = 0x11 ∧ opcodeRt .rr .A = 0x1f := by decide
+
+/-- **simulation_jump_partial**: the first block terminators — JP nn for every operand and JP HL, for all states: the template
+loads the guest PC (`mov r13w, imm16` / `mov r13w, cx`) and charges the cycles; the interpreter sets `ip` to the same value -/
+theorem simulation_jump_partial (b1 b2 : Nat) : Simulates 0xc3 b1 b2 ∧ Simulates 0xe9 b1 b2 :=
+  ⟨sim_jp b1 b2, sim_jphl b1 b2⟩
+
+
+/-- **simulation_mem_abs_partial** (the bus side, addresses that are not a register pair): LDH (n),A / LDH A,(n) for every
+operand byte, LD (nn),A / LD A,(nn) for every operand, LD (C),A / LD A,(C) — 6 encodings, for all states and any bus: the
+address is computed into rsi (`mov si, imm16` or `mov si, bx ; or si, 0xff00`), the helper is called with the registers
+saved on the host stack, a load pokes the byte into the saved A; the interpreter performs the same access -/
+theorem simulation_mem_abs_partial (b1 b2 : Nat) (h1 : b1 < 256) (h2 : b2 < 256) :
+    SimulatesMem 0xe0 b1 b2 ∧ SimulatesMem 0xf0 b1 b2 ∧ SimulatesMem 0xea b1 b2 ∧ SimulatesMem 0xfa b1 b2 ∧
+    SimulatesMem 0xe2 b1 b2 ∧ SimulatesMem 0xf2 b1 b2 :=
+  ⟨sim_e0 b1 b2 h1, sim_f0 b1 b2 h1, sim_ea b1 b2 h1 h2, sim_fa b1 b2 h1 h2, sim_e2 b1 b2, sim_f2 b1 b2⟩
+
+/-- **simulation_rmw_partial** (the bus side, read-modify-write on (HL)): RES b,(HL) and SET b,(HL) for the eight bits, SLA / SRA /
+SRL / SWAP (HL), INC (HL) and DEC (HL), RLC (HL) and RRC (HL) (these two leave 0 or 0x80 in the status byte) — 24 encodings, for all
+states and any bus. ONE wrapper (`X86.rmw_wrap`) covers them all: the
+template reads (HL) into dl with rax rcx rdx on the host stack, reloads AF into ax, runs the REGISTER form of the operation on
+dl (= the host location of E, so the body lemmas of `simulation_cb_partial` / `_shift_partial` / `_inc_partial` apply to a
+register file whose E is the byte read), stores al into the saved F, reloads the address from the saved rcx, writes dl back and
+pops; the interpreter's `rmwHL` with the (HL) form of the operation reads the same byte, writes the same byte to the same
+address and ends in a related register file -/
+theorem simulation_rmw_partial (b1 b2 : Nat) :
+    (∀ b : Fin 8, SimulatesCbMem (opcodeResHl b) b2 ∧ SimulatesCbMem (opcodeSetHl b) b2) ∧
+    (∀ k : Sh3, SimulatesCbMem (opcodeShHl k) b2) ∧ SimulatesCbMem 0x36 b2 ∧ SimulatesMem 0x34 b1 b2 ∧ SimulatesMem 0x35 b1 b2 ∧
+    (∀ k : Rc2, SimulatesCbMemS (opcodeRcHl k) b2) :=
+  ⟨fun b => ⟨sim_reshl b b2, sim_sethl b b2⟩, fun k => sim_shhl k b2, sim_swaphl b2, sim_inchl b1 b2, sim_dechl b1 b2, fun k => sim_rchl k b2⟩
+
+/-- RES 0,(HL) = CB 86, SET 7,(HL) = CB FE, SLA (HL) = CB 26, SRA (HL) = CB 2E, SRL (HL) = CB 3E -/
+example : opcodeResHl 0 = 0x86 ∧ opcodeSetHl 7 = 0xfe ∧ opcodeShHl .sla = 0x26 ∧ opcodeShHl .sra = 0x2e ∧ opcodeShHl .srl = 0x3e ∧
+    opcodeRcHl .rlc = 0x06 ∧ opcodeRcHl .rrc = 0x0e := by decide
+
+/-- **simulation_bithl_partial**: BIT b,(HL) for the eight bits, for all states whose F has a clear low nibble and any bus: the
+read-only sibling of the wrapper (`X86.rmr_wrap`: read (HL) into dl, reload AF, run the register form of BIT on dl with r14b as
+scratch, store al into the saved F, pop — no write-back); the bus is unchanged, the status byte is left at 0 or 0x80 -/
+theorem simulation_bithl_partial (b2 : Nat) : ∀ b : Fin 8, SimulatesCbMemSF (opcodeBitHl b) b2 := fun b => sim_bithl b b2
+
+example : opcodeBitHl 0 = 0x46 ∧ opcodeBitHl 7 = 0x7e := by decide
 
 /-- the opcodes covered are the SM83's: LD B,C = 0x41, LD A,n = 0x3E, LD SP,nn = 0x31, DEC HL = 0x2B -/
 example : opcodeLd8 .B .C = 0x41 ∧ opcodeLdI .A = 0x3e ∧ opcodeLd16 .SP = 0x31 ∧ opcodeDec16 .HL = 0x2b := by decide
